@@ -38,8 +38,11 @@ Midpoints == order = 1 /\ type \in {"quad", "hexahedron", "triangle", "tetra"}
                 \/ Step("midfaces", type, dim, 3)
                 \/ (type \in {"hexahedron", "tetra"} /\ Step("midvolumes", type, dim, 3))
                 \/ Step("centroids", type, dim, 3)
-Combine == order = 1 /\ (Step("concatmerge", type, dim, order) \/ Step("stack", type, dim, order) \/ Step("disconnect", type, dim, order))
-Next == Rigid \/ Flip \/ Triangulate \/ Expand \/ Revolve \/ Midpoints \/ Combine
+Combine == order = 1 /\ (Step("concatmerge", type, dim, order) \/ Step("stack", type, dim, order) \/ Step("disconnect", type, dim, order)
+                         \/ Step("dupcells", type, dim, order))
+\* a line mesh (embedded in the plane) filled towards a scaled and shifted copy of itself
+FillBetween == order = 1 /\ type = "line" /\ dim = 1 /\ \E n \in {2, 3} : Step("fillbetween:" \o ToString(n), "quad", 2, 1)
+Next == Rigid \/ Flip \/ Triangulate \/ Expand \/ Revolve \/ Midpoints \/ Combine \/ FillBetween
 Spec == Init /\ [][Next]_vars
 
 \* typing invariants
